@@ -82,12 +82,17 @@ def tie_one(ctx, path, flags=()):
         if os.path.exists(f):
             os.unlink(f)
     common = [f'-I{snap}/include', f'-I{snap}/test'] + list(flags)
-    rc, _, err = _run([ctx.cch] + common + ['-S', '-o', real_s, '-verif-dump-ast', dump, path], snap)
-    rcp, _, errp = _run([ctx.cc] + common + ['-S', '-o', plain_s, path], snap)
+    # a unit that uses __TIME__ / __DATE__ / __TIMESTAMP__ compiles to different text when the clock ticks between the two runs: run the
+    # pair again (up to four times) before comparing, as the C19 whole-program leg does
+    for attempt in range(4):
+        rc, _, err = _run([ctx.cch] + common + ['-S', '-o', real_s, '-verif-dump-ast', dump, path], snap)
+        rcp, _, errp = _run([ctx.cc] + common + ['-S', '-o', plain_s, path], snap)
+        real = open(real_s, 'rb').read() if rc == 0 and os.path.exists(real_s) else None
+        plain = open(plain_s, 'rb').read() if rcp == 0 and os.path.exists(plain_s) else None
+        if (rc == 0) == (rcp == 0) and real == plain:
+            break
     res = {'file': path, 'flags': list(flags)}
     # the hook must not change what the compiler does
-    real = open(real_s, 'rb').read() if rc == 0 and os.path.exists(real_s) else None
-    plain = open(plain_s, 'rb').read() if rcp == 0 and os.path.exists(plain_s) else None
     if (rc == 0) != (rcp == 0) or real != plain:
         res.update(outcome='disagree', kind='hook-changes-codegen',
                    note=f'hooked build rc={rc}, plain build rc={rcp}; -S outputs ' + ('differ' if real != plain else 'equal'))
